@@ -1,16 +1,13 @@
-"""Per-property configuration of ./check (what is compared, rules, assumptions)."""
+"""Per-property configuration of ./check: lib/props.d/<ID>.py each define CFG = {...}.
 
-SIZE32 = "64*len(words) < 2^31 (Go's int32 positions cannot overflow; larger bitmaps are outside every statement)"
+Keys: files (anchored Go files, for the coverage report), go (op -> Go function, for replay files),
+rule (how cases are generated and what makes one non-trivial), assumptions (list), trusted (extra
+trusted-base entries), runs (list of harness builds: {"tags": "verif debug"}, {"race": True}, ...),
+explanation, shrink_s."""
+import os, glob
 
-PROPS = {
-    "C01": {
-        "files": ["bitmap/rank.go", "bitmap/mask.go"],
-        "go": {"IndexRank64": "bitmap.IndexRank64", "IndexRank128": "bitmap.IndexRank128",
-               "Rank64": "bitmap.Rank64", "Rank128": "bitmap.Rank128"},
-        "rule": "cases = exhaustive sweeps (constant bitmaps of 0..5 words, single/two-bit words in every slot x all positions) "
-                "+ random bitmaps of 1..40 words from a 10-pattern word mix with positions biased to 64/128-bit boundaries; "
-                "a rank case is non-trivial when there are 1-bits before the queried word, and inside it both below and at/above i; "
-                "an index case when the bitmap has >1 word and >0 bits; distinct = distinct (op,args)",
-        "assumptions": [SIZE32, "every word is in [0,2^64) (words_ok)"],
-    },
-}
+PROPS = {}
+for _f in sorted(glob.glob(os.path.join(os.path.dirname(os.path.abspath(__file__)), "props.d", "C*.py"))):
+    _ns = {}
+    exec(open(_f).read(), _ns)
+    PROPS[os.path.basename(_f)[:-3]] = _ns["CFG"]
